@@ -40,7 +40,14 @@ type expectContinueReader struct {
 }
 
 func (ecr *expectContinueReader) tryWriteContinue() {
-	if !ecr.resp.wroteContinue {
+	// Note: the request body is read by the transport's write goroutine while the
+	// connection goroutine may already be writing the final response to the same
+	// buffered writer; continueMu serializes the two, and no interim response is
+	// written once the final response header has been started.
+	ecr.resp.continueMu.Lock()
+	defer ecr.resp.continueMu.Unlock()
+
+	if !ecr.resp.wroteContinue && !ecr.resp.continueForbidden {
 		ecr.resp.wroteContinue = true
 		ecr.resp.conn.buf.WriteString("HTTP/1.1 100 Continue\r\n\r\n")
 		ecr.resp.conn.buf.Flush()
@@ -88,9 +95,9 @@ func (ecr *expectContinueReader) Peek(n int) ([]byte, error) {
 
 // check whether expectContinueReader has sent 100-Continue response
 func (ecr *expectContinueReader) WroteContinue() bool {
-	ecr.mu.Lock()
+	ecr.resp.continueMu.Lock()
 	wroteContinue := ecr.resp.wroteContinue
-	ecr.mu.Unlock()
+	ecr.resp.continueMu.Unlock()
 
 	return wroteContinue
 }
